@@ -63,6 +63,13 @@ CHECKS = {
         note="Exhaustive over the grid only. The isotension strain measure is not pinned by the property: the check uses the strain the criteria exposes and requires it to vanish for an unchanged cell; the hydrostatic clause (identical to isobaric) is checked on every cell pair.",
         technique="exhaustive grid enumeration of the decision function with threshold capture and scripted boundary uniforms; parameter-change sequences explored as choice points",
     ),
+    "C10": dict(
+        category="exploration",
+        text="Product grids of generator answers (K equal-probability quantile midpoints per draw, plus the extreme answers lo and the largest float below hi) are fed to every shipped operation (Box, Ball, Sphere, Translation, Rotation, TranslationRotation, composites, Isotropic/Anisotropic/Shape deformation) x step sizes x cubic/triclinic cells x groups of 1-4 atoms with mixed masses x all 512 masks. On every grid point: bounds, rigidity, centre of mass, centroid at the drawn fractional point, sum of parts, scalar x identity, det = 1, symmetric positive definite, identity in masked-out components. Over each inversion-closed grid the multiset of results must be closed under inversion (-d, R^T, F^-1) with equal multiplicity.",
+        design_ref="4-C10",
+        note="Grid quadrature: values between grid points are not explored. The operations are assumed to obtain randomness through uniform draws consumed in call order (QuantileRNG).",
+        technique="exhaustive product-grid enumeration of generator answers on the implementation with geometric invariants and an inversion-closure multiset oracle",
+    ),
 }
 
 NA_REASON = "check not built yet in this session (design in DESIGN.md); no claim is made"
